@@ -4,6 +4,7 @@ package c14
 import (
 	"fmt"
 	"math/big"
+	"strconv"
 	"testing"
 
 	"github.com/goblimey/go-ntrip/rtcm/utils"
@@ -240,6 +241,77 @@ func TestGrid(t *testing.T) {
 var propParallel = stats.ParallelProp(R, "parallel", gen, check, 6)
 
 func TestParallel(t *testing.T) { rapid.Check(t, propParallel) }
+
+// HugeCase: a field near a very large bit position in a buffer of more than 512 MiB (never written out).
+type HugeCase struct {
+	Pos   uint64 `json:"pos"`
+	Width int    `json:"width"`
+	Value uint64 `json:"value"`
+}
+
+var hugeBuf []byte
+
+func checkHuge(c HugeCase, o *stats.Obs) error {
+	if strconv.IntSize < 64 {
+		o.Skip = true
+		return nil
+	}
+	const size = 1<<29 + 64
+	if hugeBuf == nil {
+		hugeBuf = make([]byte, size) // fresh pages from the OS: only the few that are touched become resident
+	}
+	if c.Width < 1 || c.Width > 64 || c.Pos+uint64(c.Width) > size*8 {
+		o.Skip = true
+		return nil
+	}
+	first, last := int(c.Pos/8), int((c.Pos+uint64(c.Width)-1)/8)
+	for i := first - 1; i <= last+1; i++ { // complement of the value's bits around the field
+		if i >= 0 && i < size {
+			hugeBuf[i] = 0xFF
+		}
+	}
+	for i := 0; i < 16; i++ {
+		hugeBuf[i] = byte(0xA5 ^ i) // what a wrapped-around position would read
+	}
+	for i := 0; i < c.Width; i++ {
+		p := c.Pos + uint64(i)
+		m := byte(0x80 >> (p % 8))
+		if (c.Value>>uint(c.Width-1-i))&1 == 1 {
+			hugeBuf[p/8] |= m
+		} else {
+			hugeBuf[p/8] &^= m
+		}
+	}
+	want := c.Value
+	if c.Width < 64 {
+		want &= 1<<uint(c.Width) - 1
+	}
+	got := utils.GetBitsAsUint64(hugeBuf, uint(c.Pos), uint(c.Width))
+	for i := first - 1; i <= last+1; i++ {
+		if i >= 16 && i < size {
+			hugeBuf[i] = 0
+		}
+	}
+	if got != want {
+		o.Key = "huge-buffer"
+		return fmt.Errorf("GetBitsAsUint64 on a %d-byte buffer at bit position %d, width %d = %#x, want %#x", size, c.Pos, c.Width, got, want)
+	}
+	o.NonTrivial = true
+	o.Hash = stats.HashInts(int64(c.Pos), int64(c.Width), int64(c.Value))
+	o.Class("buffer>512MiB")
+	return nil
+}
+
+func genHuge(t *rapid.T) HugeCase {
+	w := rapid.IntRange(1, 64).Draw(t, "width")
+	base := rapid.SampledFrom([]uint64{1 << 32, 1 << 31, 1<<32 + 1<<20}).Draw(t, "base")
+	pos := base - 70 + uint64(rapid.IntRange(0, 140).Draw(t, "delta"))
+	return HugeCase{Pos: pos, Width: w, Value: rapid.Uint64().Draw(t, "value")}
+}
+
+var propHuge = stats.Prop(R, "huge", genHuge, checkHuge)
+
+func TestHuge(t *testing.T) { rapid.Check(t, propHuge) }
 
 func TestReplay(t *testing.T) { R.Replay(t) }
 
